@@ -285,8 +285,8 @@ def asm_read_max(repo):
                     found.append(n.args[0].value)
                 else:
                     return 0
-        if len(found) == 1 and found[0] >= 0:
-            return found[0]
+        if found and all(x >= 0 for x in found):
+            return min(found)          # every implicit read (first one and the read-ahead drain loop)
     except Exception:
         pass
     return 0
